@@ -493,7 +493,7 @@ theorem eval_sim {cfg : Cfg} (hst : cfg.style ≠ .core) (hcap : cfg.capture = t
     | param n shape init =>
       have hS : "params" ∉ S := hcov.2 "params" (by simp [otherCols])
       simp only [eval] at h
-      cases hp : scopeParam π n shape init l.res s with
+      cases hp : scopeParam π n (resolveDims shape) init l.res s with
       | mk res s2 =>
         rw [hp] at h
         cases res with
@@ -542,14 +542,14 @@ theorem eval_sim {cfg : Cfg} (hst : cfg.style ≠ .core) (hcap : cfg.capture = t
         obtain ⟨rfl, rfl⟩ := h
         refine ⟨push l' v.total, t, by simp [eval, eraseSow, hsim.getVar_eq hS, hg], ?_, hsim⟩
         exact ⟨by simp [push, hl.env_eq], hl.out_eq, hl.cursors_eq, hl.kids_eq, hl.res_sub, hl.kids_ok⟩
-    | put col n e =>
+    | put col rel n e =>
       have hS : col ∉ S := hcov.2 col (by simp [otherCols])
       simp only [eval] at h
       cases he : evalE x l.env e with
       | error err => simp [he] at h
       | ok v =>
         simp only [he] at h
-        cases hp : putVar π col n (.tensor [] [v]) s with
+        cases hp : putVar (π ++ rel) col n (.tensor [] [v]) s with
         | mk res s2 =>
           rw [hp] at h
           cases res with
@@ -625,7 +625,7 @@ theorem eval_sim {cfg : Cfg} (hst : cfg.style ≠ .core) (hcap : cfg.capture = t
             rcases List.mem_append.mp hk with h1 | h1
             · exact hl.kids_ok k h1
             · simp only [List.mem_singleton] at h1; subst h1; exact hcb
-    | call slot a =>
+    | call slot a w =>
       simp only [eval] at h
       cases hk : l.kids[slot]? with
       | none => simp [hk] at h
@@ -633,12 +633,15 @@ theorem eval_sim {cfg : Cfg} (hst : cfg.style ≠ .core) (hcap : cfg.capture = t
         simp only [hk] at h
         have hk' : l'.kids[slot]? = some ⟨k.name, eraseSow k.body⟩ := by
           rw [hl.kids_eq, List.getElem?_map, hk]; rfl
-        have hkc : Covers S k.body := hl.kids_ok k (List.mem_of_getElem? hk)
+        have hkc : Covers S (bindArg w k.body) := by
+          have := hl.kids_ok k (List.mem_of_getElem? hk)
+          unfold Covers at this ⊢
+          rw [sowCols_bindArg, otherCols_bindArg]; exact this
         cases he : evalE x l.env a with
         | error err => simp [he] at h
         | ok av =>
           simp only [he] at h
-          cases hb : eval cfg fuel k.body (π ++ [k.name]) av {} s with
+          cases hb : eval cfg fuel (bindArg w k.body) (π ++ [k.name]) av {} s with
           | mk res s2 =>
             rw [hb] at h
             cases res with
@@ -646,7 +649,7 @@ theorem eval_sim {cfg : Cfg} (hst : cfg.style ≠ .core) (hcap : cfg.capture = t
             | ok lk =>
               simp only at h
               obtain ⟨lk', t2, e1, hlk, hs2⟩ :=
-                ih k.body (π ++ [k.name]) av {} {} lk s t s2 hkc (LocalSim.empty S) hsim hb
+                ih (bindArg w k.body) (π ++ [k.name]) av {} {} lk s t s2 hkc (LocalSim.empty S) hsim hb
               cases hf : finishCall cfg (π ++ [k.name]) lk s2 with
               | mk res2 s3 =>
                 rw [hf] at h
@@ -657,7 +660,8 @@ theorem eval_sim {cfg : Cfg} (hst : cfg.style ≠ .core) (hcap : cfg.capture = t
                   obtain ⟨rfl, rfl⟩ := h
                   obtain ⟨f1, hlk2, hs3⟩ := finishCall_left hcap hlk hs2 hf
                   refine ⟨push l' lk'.out, t2, ?_, ?_, hs3⟩
-                  · simp only [eval, eraseSow, hk', hl.env_eq, he, e1, f1]
+                  · rw [eraseSow_bindArg] at e1
+                    simp only [eval, eraseSow, hk', hl.env_eq, he, e1, f1]
                   · exact ⟨by simp [push, hl.env_eq, hlk2.out_eq], hl.out_eq, hl.cursors_eq, hl.kids_eq,
                             hl.res_sub, hl.kids_ok⟩
 
